@@ -39,6 +39,18 @@ def ensure_repo_importable():
     import pb_bss.initializer.deflation  # noqa
     import pb_bss.math.solve  # noqa
     import pb_bss.utils  # noqa
+    import pb_bss.extraction.beamform_utils  # noqa
+    import pb_bss.evaluation.wrapper  # noqa
+    # ... and whatever else the package has (optional dependencies missing in
+    # this image make some modules fail to import; that is fine)
+    import pkgutil
+    for m in pkgutil.walk_packages(pb_bss.__path__, 'pb_bss.'):
+        if '.testing' in m.name or '.cythonized' in m.name:
+            continue
+        try:
+            __import__(m.name)
+        except Exception:   # noqa
+            pass
     import scipy.special, scipy.interpolate, scipy.optimize  # noqa
     from pb_bss import _verif
     if not _verif.ENABLED:
